@@ -210,3 +210,22 @@ Definition check (c : case) : bool :=
   list_eqb Nat.eqb (map (fun id => count_occ Nat.eq_dec (runs sf) id) (seq 0 (count sf))) invs &&
   Nat.eqb (length invs) (count sf) &&
   list_eqb Nat.eqb (errfs sf) oerrfs.
+
+(* BatchWork trace observed on the real code (sequential view: the job events between two pref calls
+   sorted by index): (0, last, 0) = pref(last); (1, i, last) = f(i, last) *)
+Definition bev_code (e : bev) : nat * nat * nat :=
+  match e with BPref l => (0, l, 0) | BJob i l => (1, i, l) end.
+
+Inductive xcase : Type :=
+| XSched (c : case)
+| XTrace (size limit : nat) (ok : bool) (t : list (nat * nat * nat)).
+
+Definition check_x (x : xcase) : bool :=
+  match x with
+  | XSched c => check c
+  | XTrace size limit ok t =>
+      match batch_trace size limit (in_order (batches size limit)) with
+      | Ok m => ok && list_eqb eqb3 (map bev_code m) t
+      | Err _ => negb ok
+      end
+  end.
